@@ -394,11 +394,12 @@ def check_case(case, rec):
             for n, at in ck.atoms():
                 if at.implicit_hydrogens not in valence_ref.implicit_h_all(at, valence_ref.atom_neighbours(ck, n)):
                     rec.fail('keep-kekule', f'{label!r}: canonicalize(keep_kekule=True) gives {str(ck)!r}: atom {n} ({at.atomic_symbol}) keeps '
-                                            f'{at.implicit_hydrogens} hydrogens, not a state of the element tables for its bonds', sig='stored-H')
+                                            f'{at.implicit_hydrogens} hydrogens, not a state of the element tables for its bonds',
+                             sig='fused-cp-anion' if wl.fused_cp_anion(mk) else 'stored-H')
                     return
             if per_atom(ck) != per_atom(ca):
                 rec.fail('keep-kekule', f'{label!r}: per-atom data of canonicalize(keep_kekule=True) {str(ck)!r} differ from canonicalize() '
-                                        f'{str(ca)!r}', sig='per-atom')
+                                        f'{str(ca)!r}', sig='fused-cp-anion' if wl.fused_cp_anion(mk) else 'per-atom')
                 return
             rec.count('keep-kekule-compared')
     # ---- enumerated Kekule forms
